@@ -97,6 +97,9 @@ func (propC11) Gen(r *Rng, tier string) *World {
 	undefined := r.P(0.2)
 	// programs: one probe per variable plus generated programs over them
 	for _, v := range w.Cfg.Vars {
+		if _, isConst := w.Cfg.Consts[v.Name]; isConst {
+			continue // a constant of the same name wins: the name never means the variable
+		}
 		if r.P(0.5) {
 			w.Progs = append(w.Progs, If(Lit(VB(true)), Var(v.Name), Var(v.Name)))
 		}
